@@ -519,7 +519,7 @@ func (Engine) Run(t *tape.Tape, o eng.Opts) *eng.Result {
 			if under {
 				// also while the tree changes: a directory that had gone (removed, or replaced by a
 				// regular file) before this request even arrived cannot be what is being redirected
-				if t := d.goneDir[strings.Trim(path.Clean("/"+rest), "/")]; t != 0 && t < q.StartStamp {
+				if f := d.files[strings.Trim(path.Clean("/"+rest), "/")]; f != nil && f.spec.isDir && f.goneAt != 0 && f.goneAt < q.StartStamp {
 					viol("redirect-non-directory", "a path that had stopped being a directory before the request arrived was redirected\n  "+desc)
 				}
 			}
